@@ -11,6 +11,7 @@
   only sees the generated histories).
 -/
 import AHP.Lemmas.PyAstCache
+import AHP.Lemmas.CacheLock
 namespace AHP.C15Code
 open AHP AHP.Gen AHP.Conv AHP.PyAst AHP.Gen.Code AHP.Cache
 
@@ -95,28 +96,25 @@ theorem setCachedExpression_code_shipped (key : Str → Str) (fuel : Nat) (s : S
       = (some (ofState (Cache.set Gen.maxCachedExpressions Gen.clearAtOneTime s (key e) v) false), .ok (.py .none)) :=
   setCachedExpression_code_eq_model key _ _ fuel s e v hfuel
 
-/-- The methods are critical sections of the lock-level programs of `Model/Cache.lean`: from a free lock, the whole of
-`getCachedExpression` is `getAcquire; getBody; getRelease` of `lstep` — same cache, same result, lock free again. -/
+/-- The methods are critical sections of the lock-level programs of `Model/Cache.lean` (one program point per statement:
+acquire, lookup, the removal loop, append, release): from a free lock, the whole of `getCachedExpression`, run alone, is the run
+of `lstep` from `getAcquire` to its return — same cache, same result, lock free again. -/
 theorem getCachedExpression_code_eq_lsteps (key : Str → Str) (MAX CLEAR fuel : Nat) (s : State Str PyV) (e : Str)
     (hv : ∀ p ∈ s.map, p.2 ≠ .none) (hfuel : s.recent.length < fuel) :
-    ∃ sh r, (lstep MAX CLEAR ⟨false, s⟩ (.getAcquire (key e))).bind (fun p => (lstep MAX CLEAR p.1 p.2).bind
-                (fun q => lstep MAX CLEAR q.1 q.2)) = some (sh, .done r false)
+    ∃ sh r, Runs MAX CLEAR ⟨false, s⟩ (.getAcquire (key e)) sh (.done r false)
       ∧ runMeth (cacheCx key MAX CLEAR fuel) XPathExpressionCacheType_getCachedExpression_ast (ofState s false) [.py (.str e)]
           = (some (ofState sh.cache sh.held), .ok (.py (optPy r))) := by
-  refine ⟨⟨false, (Cache.get s (key e)).1⟩, (Cache.get s (key e)).2, ?_, ?_⟩
-  · simp [lstep, Option.bind]
-  · exact getCachedExpression_code_eq_model key MAX CLEAR fuel s e hv hfuel
+  refine ⟨⟨false, (Cache.get s (key e)).1⟩, (Cache.get s (key e)).2, get_section_runs MAX CLEAR s (key e), ?_⟩
+  exact getCachedExpression_code_eq_model key MAX CLEAR fuel s e hv hfuel
 
-/-- The same for `setCachedExpression` (normal path: `setAcquire; setBody; setRelease`). -/
+/-- The same for `setCachedExpression` (normal path, from `setAcquire` to its return). -/
 theorem setCachedExpression_code_eq_lsteps (key : Str → Str) (MAX CLEAR fuel : Nat) (s : State Str PyV) (e : Str) (v : PyV)
     (hfuel : s.recent.length < fuel) :
-    ∃ sh, (lstep MAX CLEAR ⟨false, s⟩ (.setAcquire (key e) v false)).bind (fun p => (lstep MAX CLEAR p.1 p.2).bind
-                (fun q => lstep MAX CLEAR q.1 q.2)) = some (sh, .done none false)
+    ∃ sh, Runs MAX CLEAR ⟨false, s⟩ (.setAcquire (key e) v false) sh (.done none false)
       ∧ runMeth (cacheCx key MAX CLEAR fuel) XPathExpressionCacheType_setCachedExpression_ast (ofState s false)
           [.py (.str e), .py v] = (some (ofState sh.cache sh.held), .ok (.py .none)) := by
-  refine ⟨⟨false, Cache.set MAX CLEAR s (key e) v⟩, ?_, ?_⟩
-  · simp [lstep, Option.bind]
-  · exact setCachedExpression_code_eq_model key MAX CLEAR fuel s e v hfuel
+  refine ⟨⟨false, Cache.set MAX CLEAR s (key e) v⟩, set_section_runs MAX CLEAR s (key e) v, ?_⟩
+  exact setCachedExpression_code_eq_model key MAX CLEAR fuel s e v hfuel
 
 /-! ### non-vacuity: concrete runs of the dump through the interpreter (kernel evaluation), off the trivial paths -/
 
